@@ -52,10 +52,38 @@ theorem drawId_suffix (flows : List (Nat × Slot)) (s : List Nat) (fb fuel k : N
 
 /-! ### Building blocks -/
 
-/-- A `Reset y` answers the stream frame of `y` at the head of the inbox. -/
-theorem BSim.rstHead {l : List WsIn} (e : EP) (f : Frame) (y : Nat) (hs : streamFrame f y = true) :
+/-- Guard of `BSim.pop` for an item that is neither a `Finish` nor a `Reset` frame. -/
+macro "pop_other" : tactic => `(tactic| exact PopOk.other (by intro m hm y; cases hm <;> rfl))
+
+/-- A `Reset y` answers the stream frame of `y` at the head of the inbox (which may be taken silently). -/
+theorem BSim.rstHead {l : List WsIn} (e : EP) (f : Frame) (y : Nat) (hs : streamFrame f y = true)
+    (hg : PopOk e.flows (.msg (.frame f))) :
     BSim (.msg (.frame f) :: l) e l (e.enqFrame (.reset y)) [] [] :=
-  (BSim.enqFrame (l := .msg (.frame f) :: l) e (.reset y) (Or.inr (Or.inl ⟨f, l, rfl, hs⟩))).tr0 (BSim.pop _ _)
+  (BSim.enqFrame (l := .msg (.frame f) :: l) e (.reset y) (Or.inr (Or.inl ⟨f, l, rfl, hs⟩))).tr0
+    (BSim.pop _ _ (by rw [EP.enqFrame, enq_flows]; exact hg))
+
+/-- After `close_flow`, the slot of `fid` is no pending bind request. -/
+theorem closeFlow_lookup_self (e : EP) (fid : Nat) (inh : Bool) (r : Nat) :
+    lookup (Mux.closeFlow e fid inh).1.flows fid ≠ some (.bindRequested r) := by
+  unfold Mux.closeFlow
+  cases hl : lookup e.flows fid with
+  | none => simp [hl]
+  | some s =>
+    have hf : (closeLocal { e with flows := Mux.erase e.flows fid } s fid inh false).1.flows = Mux.erase e.flows fid := by
+      unfold Mux.closeLocal
+      cases s with
+      | established i =>
+        simp only
+        cases EP.obj? { e with flows := Mux.erase e.flows fid } i with
+        | none => rfl
+        | some o => simp only; split <;> simp [EP.modObj, EP.enqFrame]
+      | requested req =>
+        simp only [Mux.openRejected]
+        repeat' split
+        all_goals rfl
+      | bindRequested req => rfl
+    simp only [hf, lookup_erase_self]
+    simp
 
 /-- A `Reset y` for a flow with an `Established` slot. -/
 theorem BSim.rstEst {l : List WsIn} (e : EP) (y i : Nat) (h : lookup e.flows y = some (.established i)) :
@@ -172,7 +200,7 @@ theorem BSim.processFrame {l : List WsIn} (e : EP) (f : Frame) (ig : Bool) :
   | connect fid rwnd port host =>
     simp only [Mux.processFrame]
     split
-    · exact BSim.rstHead e _ fid (by simp [streamFrame])
+    · exact BSim.rstHead e _ fid (by simp [streamFrame]) (by pop_other)
     · rename_i hc
       have hfree : lookup e.flows fid = none := by
         cases hl : lookup e.flows fid with
@@ -193,7 +221,7 @@ theorem BSim.processFrame {l : List WsIn} (e : EP) (f : Frame) (ig : Bool) :
   | acknowledge fid n =>
     simp only [Mux.processFrame]
     split
-    · exact (BSim.pop e _).tr0 (BSim.modObj _ _ _ (by bsim_fid))
+    · exact (BSim.pop e _ (by pop_other)).tr0 (BSim.modObj _ _ _ (by bsim_fid))
     · rename_i req hl
       have g1 : BSim (.msg (.frame (.acknowledge fid n)) :: l) e l
           { e with objs := e.objs ++ [newObj e.opts fid n [] 0],
@@ -203,56 +231,58 @@ theorem BSim.processFrame {l : List WsIn} (e : EP) (f : Frame) (ig : Bool) :
       · exact g1.tr0 (BSim.same rfl rfl)
       · exact (g1.tr0 (BSim.dropNote _ fid (by simp))).tr0
           (BSim.modObj _ e.objs.length (fun o => { o with rxOpen := false }) (by bsim_fid))
-    · exact BSim.rstHead e _ fid (by simp [streamFrame])
-    · exact BSim.rstHead e _ fid (by simp [streamFrame])
+    · exact BSim.rstHead e _ fid (by simp [streamFrame]) (by pop_other)
+    · exact BSim.rstHead e _ fid (by simp [streamFrame]) (by pop_other)
   | finish fid =>
     simp only [Mux.processFrame]
     split
-    · exact BSim.rstHead e _ fid (by simp [streamFrame])
+    · rename_i hl
+      exact BSim.rstHead e _ fid (by simp [streamFrame]) (PopOk.finish (by simp [hl]))
     · rename_i req hl
       have g : BSim (.msg (.frame (.finish fid)) :: l) e (.msg (.frame (.finish fid)) :: l) e
           [Ev.bindDone req .accepted] [BEv.done req .accepted] :=
         BSim.one (BStep.finBind (bview e (_ :: l)) fid req l rfl (lookup_mem _ _ _ hl)) rfl rfl
-      exact (g.tr1 (BSim.pop e _)).tr1 (BSim.erase e fid)
+      exact (g.tr1 (BSim.erase e fid)).tr1 (BSim.pop _ _ (PopOk.finish (by simp [lookup_erase_self])))
     · rename_i req hl
-      refine (((BSim.rstHead (l := l) e (.finish fid) fid (by simp [streamFrame])).tr0 (BSim.erase _ fid)).congr rfl
-        ?_).lbl ?_ ?_
+      refine (((BSim.rstHead (l := l) e (.finish fid) fid (by simp [streamFrame])
+        (PopOk.finish (by simp [hl]))).tr0 (BSim.erase _ fid)).congr rfl ?_).lbl ?_ ?_
       · cases hoc : e.outClosed <;> simp [bview, EP.enqFrame, EP.enq, hoc]
       · split <;> rfl
       · split <;> rfl
-    · exact (BSim.pop e _).tr0 (BSim.modObj _ _ _ (by bsim_fid))
+    · rename_i i hl
+      exact (BSim.pop e _ (PopOk.finish (by simp [hl]))).tr0 (BSim.modObj _ _ _ (by bsim_fid))
   | reset fid =>
     simp only [Mux.processFrame]
     exact (BSim.closeFlow (l := .msg (.frame (.reset fid)) :: l) e fid true (fun _ _ => Or.inl ⟨l, rfl⟩)).tr1
-      (BSim.pop _ _)
+      (BSim.pop _ _ (PopOk.reset (closeFlow_lookup_self e fid true)))
   | push fid d =>
     simp only [Mux.processFrame]
     split
     · rename_i i hl
       split
-      · exact BSim.pop e _
+      · exact BSim.pop e _ (by pop_other)
       · split
-        · exact BSim.rstHead e _ fid (by simp [streamFrame])
+        · exact BSim.rstHead e _ fid (by simp [streamFrame]) (by pop_other)
         · split
-          · exact BSim.pop e _
+          · exact BSim.pop e _ (by pop_other)
           · split
-            · exact (BSim.pop e _).tr0 (BSim.modObj _ _ _ (by bsim_fid))
+            · exact (BSim.pop e _ (by pop_other)).tr0 (BSim.modObj _ _ _ (by bsim_fid))
             · exact (BSim.closeFlow (l := .msg (.frame (.push fid d)) :: l) e fid false
-                (fun req h => by rw [hl] at h; cases h)).tr1 (BSim.pop _ _)
-    · exact BSim.rstHead e _ fid (by simp [streamFrame])
+                (fun req h => by rw [hl] at h; cases h)).tr1 (BSim.pop _ _ (by pop_other))
+    · exact BSim.rstHead e _ fid (by simp [streamFrame]) (by pop_other)
   | bind fid bt port host =>
     simp only [Mux.processFrame]
     split
     · rename_i hcap
       exact (BSim.enqFrame (l := .msg (.frame (.bind fid bt port host)) :: l) e (.reset fid)
-        (Or.inr (Or.inr (Or.inl ⟨bt, port, host, l, rfl, Or.inl hcap⟩)))).tr0 (BSim.pop _ _)
+        (Or.inr (Or.inr (Or.inl ⟨bt, port, host, l, rfl, Or.inl hcap⟩)))).tr0 (BSim.pop _ _ (by pop_other))
     · split
-      · exact BSim.pop e _
+      · exact BSim.pop e _ (by pop_other)
       · split
         · rename_i hma
           have hma' : e.muxAlive = false := by simpa using hma
           exact (BSim.enqFrame (l := .msg (.frame (.bind fid bt port host)) :: l) e (.reset fid)
-            (Or.inr (Or.inr (Or.inl ⟨bt, port, host, l, rfl, Or.inr hma'⟩)))).tr0 (BSim.pop _ _)
+            (Or.inr (Or.inr (Or.inl ⟨bt, port, host, l, rfl, Or.inr hma'⟩)))).tr0 (BSim.pop _ _ (by pop_other))
         · unfold Mux.offerBind
           split
           · exact BSim.one (BStep.offerQ (bview e (_ :: l)) { fid := fid, bt := bt, host := host, port := port } l rfl)
@@ -262,7 +292,7 @@ theorem BSim.processFrame {l : List WsIn} (e : EP) (f : Frame) (ig : Bool) :
   | datagram fid port host d =>
     simp only [Mux.processFrame]
     repeat' split
-    all_goals first | exact BSim.pop e _ | exact (BSim.pop e _).tr0 (BSim.same rfl rfl)
+    all_goals first | exact BSim.pop e _ (by pop_other) | exact (BSim.pop e _ (by pop_other)).tr0 (BSim.same rfl rfl)
 
 /-- `process_message`: the item is the head of the inbox before, and gone after (an item that ends the
     source is taken by `recvOne` / left in place by the wind-down). -/
@@ -272,10 +302,10 @@ theorem BSim.processIn {l : List WsIn} (e : EP) (w : WsIn) (ig : Bool) (hend : i
   | msg m =>
     cases m with
     | frame f => exact BSim.processFrame e f ig
-    | ping => exact BSim.pop e _
-    | pong => exact BSim.pop e _
-    | close => exact BSim.pop e _
-  | bad b => exact BSim.pop e _
+    | ping => exact BSim.pop e _ (by pop_other)
+    | pong => exact BSim.pop e _ (by pop_other)
+    | close => exact BSim.pop e _ (by pop_other)
+  | bad b => exact BSim.pop e _ (by pop_other)
   | err => simp [isEnd] at hend
   | eof => simp [isEnd] at hend
 
